@@ -10,9 +10,13 @@
    belongs to, including the recovery of text the parser dropped (bytes left of the cursor up to a comma,
    bracket, brace, newline, equals sign or parenthesis).
 
-   Reference and function candidates are not enumerated here (Model/Ref.v and Model/FuncCands.v do that);
-   what is modelled of them is WHERE they may appear in the list and WHICH edit range they carry:
-   a [VOpq kind range] item stands for any number of candidates of that kind with that edit range.
+   Reference candidates: the walk over the collected declarations is Model/Ref.v (match_walk, Target.Address); this
+   file supplies what Reference.CompletionAtPos hands to it at every leaf - expected scope and type (of the
+   constraint, the operand, the element, the parameter ...), typed text, edit range - through the parameter [refs],
+   so that the addresses offered are compared exactly and in order.  Function candidates are not enumerated here
+   (Model/FuncCands.v does that); what is modelled of them is WHERE they may appear and WHICH edit range they
+   carry: a [VOpq kind range] item stands for any number of candidates of that kind with that edit range (also used
+   for references when a case carries no declarations).
 
    Function calls: the argument slot the cursor belongs to (with the recovery of a trailing comma) and the
    parameter type it is completed against.
@@ -386,6 +390,11 @@ Section Descent.
   Variable vals : list (range * sexp).
   Variable funcs : fsigs.                (* known functions: name -> (parameter types, variadic parameter type) *)
   Variable parens : range_table.         (* call expression -> from its opening to its closing parenthesis *)
+  Variable fname : string.               (* the file being edited *)
+  (* Reference.CompletionAtPos's walk over the collected declarations (Model/Ref.v match_walk + Target.Address), as a
+     function of (expected scope, expected type, typed text, edit range): the addresses offered, in order; None where
+     the case carries no declarations (the references are then compared by place and edit range only) *)
+  Variable refs : string -> ty -> string -> range -> option (list string).
   Variable p : pos.
   Variable rec : constraint -> cexpr -> vres.
   Variable rec_td : cexpr -> vres.       (* type declarations *)
@@ -793,14 +802,23 @@ Section Descent.
         end
     end.
 
-  (* ---- references and functions: where they may appear and with which edit range ---- *)
-  Definition ref_items (e : cexpr) : vres :=
+  (* ---- references (Reference.CompletionAtPos) ---- *)
+  Definition ref_cands (scope : string) (t : ty) (prefix : string) (org : range) (filter_prefix : bool) : list vitem :=
+    match refs scope t prefix org with
+    | Some labels =>
+        map (fun l => VC kReference (Some l) (Some l) (Some l) (Some false) (rs org) (re org))
+            (if filter_prefix then filter (bytes_prefix prefix) labels else labels)
+    | None => [VOpq kReference (rs org) (re org)]
+    end.
+
+  Definition ref_items (scope : string) (t : ty) (e : cexpr) : vres :=
     match e with
-    | CEmpty => vret [VOpq kReference P P]
+    | CEmpty => vret (ref_cands scope t "" (empty_range_at fname p) false)
     | CExpr x =>
         match se_node x with
         | NTrav _ _ _ =>
-            let r := edit_range (se_rng x) p in vret [VOpq kReference (rs r) (re r)]
+            let r := edit_range (se_rng x) p in
+            vret (ref_cands scope t (string_of_bytes (slice (rs (se_rng x)) P)) r true)
         | NOther => vskip
         | _ => vnil
         end
@@ -886,7 +904,7 @@ Section Descent.
     end.
 
   Definition leaf_cands (t : ty) (skip : bool) (e : cexpr) : vres :=
-    vapp (ref_items e) (vapp (fn_items e) (vapp (literal_type_cands t skip e) (index_cands e))).
+    vapp (ref_items "" t e) (vapp (fn_items e) (vapp (literal_type_cands t skip e) (index_cands e))).
 
   Fixpoint parts_at (parts : list sexpr) : option sexpr :=
     match parts with
@@ -977,7 +995,7 @@ Section Descent.
     | CLitValue v t _ => literal_value_cands v t e
     | CKeyword kw _ => keyword_cands kw e
     | CRef _ _ _ (Some _) => vnil          (* a reference that declares what it names: no candidates *)
-    | CRef _ _ _ None => ref_items e
+    | CRef sc t _ None => ref_items sc t e
     | CTypeDecl => rec_td e
     | CList elem _ _ => list_cands kList c elem e
     | CSet elem _ _ => list_cands kSet c elem e
@@ -989,10 +1007,11 @@ Section Descent.
 End Descent.
 
 Fixpoint value_cands (prefill : bool) (file : bytes) (opens : range_table) (empties : list range) (vals : list (range * sexp))
-         (funcs : fsigs) (parens : range_table) (cparens : paren_table) (p : pos) (fuel : nat) (c : constraint) (e : cexpr) : vres :=
+         (funcs : fsigs) (parens : range_table) (cparens : paren_table) (fname : string)
+         (refs : string -> ty -> string -> range -> option (list string)) (p : pos) (fuel : nat) (c : constraint) (e : cexpr) : vres :=
   match fuel with
   | O => None
-  | S n => step_cands prefill file opens empties vals funcs parens p (value_cands prefill file opens empties vals funcs parens cparens p n)
+  | S n => step_cands prefill file opens empties vals funcs parens fname refs p (value_cands prefill file opens empties vals funcs parens cparens fname refs p n)
                       (type_cands file opens empties cparens p n) c e
   end.
 
@@ -1074,13 +1093,39 @@ Definition sexp_of_vitem (i : vitem) : sexp :=
    OBSERVED = (cands COMPLETE (candidate...)) | anything else (an error: only compared at body level).
    Answer: (allok) or (mismatch (POS expected)...).  Positions outside attribute values, in values of hooked
    attributes, with a list cut at the limit, or where the model says "not modelled" are not compared. *)
+(* the walk over the collected declarations as the [refs] parameter of the model *)
+Fixpoint conv_has (tbl : list (ty * ty * bool)) (a b : ty) : bool :=
+  match tbl with [] => false | (x, y, _) :: r => (ty_eqb x a && ty_eqb y b) || conv_has r a b end.
+
+Fixpoint target_types (fuel : nat) (ts : list target) : list ty :=
+  match fuel with
+  | O => []
+  | S f => flat_map (fun t => t_type t :: target_types f (t_nested t)) ts
+  end.
+
+Definition refs_of (cv : list (ty * ty * bool)) (ts : list target) (self : bool) (outer : range) (p : pos)
+           (scope : string) (t : ty) (prefix : string) (org : range) : option (list string) :=
+  let fuel := S (forest_depth ts) in
+  let need := filter (fun a => negb (is_nil a) && negb (is_dyn a)) (target_types fuel ts) in
+  if is_nil t || forallb (fun a => conv_has cv a t) need then
+    Some (map (fun x => addr_string (target_address self x (r_start org)))
+              (match_walk (conv_lookup cv) self scope t prefix outer org fuel ts))
+  else None.
+
+(* outerBodyRng of Reference.CompletionAtPos: the body of the top-level block the cursor is in, else the root body *)
+Definition outer_body_range (b : body) (p : pos) : range :=
+  match find (fun k => contains_pos (k_rng k) p) (b_blocks b) with
+  | Some k => b_rng (k_body k)
+  | None => b_rng b
+  end.
+
 (* what happened at one position *)
 Inductive vc_outcome := VCNotValue | VCCompared | VCUnmodelled | VCNotCompared | VCBad (x : sexp).
 
 Definition run_value_cands (kind : string) (args : list sexp) : option sexp :=
   if String.eqb kind "valuecands" || String.eqb kind "valuecandsstat" then
     match args with
-    | [pf; mx; SStr file; toks; SList dec; b; bs; SList es; op; em; SList vs; SList fs; prn; SList cps; SList pairs] =>
+    | [pf; mx; SStr file; toks; SList dec; b; bs; SList es; op; em; SList vs; SList fs; prn; SList cps; cvx; tsx; SList pairs] =>
         let tokens := match toks with SList ts => map_opt token_of_sexp ts | _ => None end in
         let lex_failed := match toks with SAtom _ => true | _ => false end in
         match as_bool pf, as_Z mx, map_opt decoded_of_sexp dec, Ast.body_of_sexp b, Schema.body_of_sexp bs,
@@ -1109,7 +1154,16 @@ Definition run_value_cands (kind : string) (args : list sexp) : option sexp :=
                                     match map_opt ocandv_of_sexp ol with
                                     | Some ol' =>
                                         let ce := if existsb (range_eqb (se_rng e)) em then (match se_node e with NLit _ => CEmpty | _ => CExpr e end) else CExpr e in
-                                        match value_cands pf fb op em vs fs prn cps pp 40 (as_cons s) ce with
+                                        let refs : string -> ty -> string -> range -> option (list string) :=
+                                          match cvx, tsx with
+                                          | SList cvl, SList tsl =>
+                                              match map_opt conv_entry_of_sexp cvl, map_opt target_of_sexp tsl with
+                                              | Some cv, Some ts => refs_of cv ts (ext_has ext_self_refs (bs_ext sch)) (outer_body_range b pp) pp
+                                              | _, _ => fun _ _ _ _ => None
+                                              end
+                                          | _, _ => fun _ _ _ _ => None
+                                          end in
+                                        match value_cands pf fb op em vs fs prn cps (r_file (b_rng b)) refs pp 40 (as_cons s) ce with
                                         | Some (Some items) =>
                                             if items_match items ol' && sexp_eqb complete (sB true) then VCCompared
                                             else VCBad (SList [p; SList (map sexp_of_vitem items)])
